@@ -2,6 +2,7 @@ import Lean.Data.Json
 import Gene.Engine
 import Gene.Conv
 import Gene.Yaml
+import Gene.Getter
 import Gene.Spec.Admit
 import Gene.Spec.Scan
 /-! Line-protocol driver: one JSON object per input line, one JSON answer per line.
@@ -414,6 +415,50 @@ partial def jYaml (j : Json) : E Yaml := do
     pure (.map kvs)
   | none => throw "bad yaml tree"
 
+def jAttrMeta (j : Json) : E AttrMeta :=
+  match j with
+  | .str "skip" => pure .skip
+  | .str _ => pure .other
+  | _ => match jOpt j "rename" with
+    | some r => do pure (.rename (← r.getStr?).toList)
+    | none => pure .other
+
+partial def jGVal (j : Json) : E GVal := do
+  match j with
+  | .str "optNone" => pure .optNone
+  | _ =>
+  match jOpt j "scalar" with
+  | some v => do pure (.scalar (← jValue v))
+  | none =>
+  match jOpt j "optSome" with
+  | some v => do pure (.optSome (← jGVal v))
+  | none =>
+  match jOpt j "map" with
+  | some a => do
+    let kvs ← (← a.getArr?).toList.mapM (fun kv => do
+      pure ((← (← kv.getArrVal? 0).getStr?).toList, ← jValue (← kv.getArrVal? 1)))
+    pure (.map kvs)
+  | none =>
+  match jOpt j "struct" with
+  | some s => do
+    let us ← (← s.getObjVal? "us").getBool?
+    let fs ← (← (← s.getObjVal? "fields").getArr?).toList.mapM (fun fv => do
+      let fd ← fv.getArrVal? 0
+      let name ← jStr fd "name"
+      let attrs ← (← (← fd.getObjVal? "attrs").getArr?).toList.mapM (fun a => do
+        let g ← (← a.getObjVal? "g").getBool?
+        let metas ← (← (← a.getObjVal? "metas").getArr?).toList.mapM jAttrMeta
+        pure ({ isGetter := g, metas := metas } : FieldAttr))
+      let v ← jGVal (← fv.getArrVal? 1)
+      pure (({ name := name, attrs := attrs } : FieldDef), v))
+    pure (.struct us fs)
+  | none => throw "bad getter value"
+
+def optValueJson : Option FieldValue → Json
+  | none => Json.null
+  | some (.num (.float _)) => Json.mkObj [("f", Json.null)]
+  | some v => valueJson v
+
 /-- load template documents, then rule documents, build the engine, scan the events in order -/
 def runScenario (x : Ext) (tdocs : List Tpls) (rules : List Rule) (events : List Event) : Json :=
   let c0 : Compiler := {}
@@ -621,6 +666,11 @@ def handle (j : Json) : E Json := do
           | .err => Json.mkObj [("compile", "rule"), ("roundtrip", same)]
           | .panic => Json.str "panic"
     pure (Json.mkObj [("model", r)])
+  | "getter" =>
+    let v ← jGVal (← j.getObjVal? "value")
+    let paths ← (← (← j.getObjVal? "paths").getArr?).toList.mapM jStrList
+    pure (Json.mkObj [("model", Json.arr (paths.map (fun p => optValueJson (M.gget v p))).toArray),
+                      ("spec", Json.arr (paths.map (fun p => optValueJson (S.resolve v p))).toArray)])
   | "load_text" =>
     -- whole-text inputs go through serde_yaml, which is not modelled: the model's answer is the
     -- statement of C15_load / C15_compile / compileInto_no_panic (no panic outcome is reachable)
